@@ -19,7 +19,7 @@ META = {
                     "class:w=none", "class:ignore", "class:propagate", "class:xdtype=from_index", "class:xdtype=signed",
                     "class:ndims=0", "class:ndims>=3", "class:xshape=inferred", "class:fact=int",
                     "class:cols+weights+propagate", "compared:ccube", "compared:xcube", "class:cell_counter_on_boundary", "class:more_than_1024_cells",
-                    "class:argument_objects_shared_between_calls"] for t in ("quick", "thorough")},
+                    "class:argument_objects_shared_between_calls", "format:nan", "format:tuple", "format:plain0"] for t in ("quick", "thorough")},
     "assumptions": ["tolerance 1e-9*max(1, sum|w*x|) (x20 for means); missing sets compared exactly",
                     "weights are >= 0 and never tiny-positive (< 0.05), so 'weight sum is zero' is unambiguous",
                     "array cube with inferred shape only for N >= 1 (a dense array of zero rows carries no extent)"],
@@ -130,16 +130,23 @@ def judge(ctx, case):
         cubes.append(("xcube[nodims]", catii.xcube([]), ()))
 
     missing_rows = aggr.has_missing_rows(case)
+    # the report format is part of the configuration: mostly NaN in place, sometimes the other two
+    frng = numpy.random.default_rng(n * 31 + len(dense))
     for agg in aggr.SHARED:
         tol = aggr.tolerance(case, agg)
         for name, cube, cshape in cubes:
             ref_v, ref_m = aggr.reference(case, agg, dense, cshape)
-            res = aggr.call(cube, agg, case, NaN, shared)
+            r = frng.random()
+            rma = NaN if r < 0.6 else ((gen.pick(frng, [0, -1, 7]), False) if r < 0.85 else 0)
+            if rma == 0 and not isinstance(rma, tuple) and agg == "valid_count" and not case["ignore_missing"]:
+                rma = NaN      # the documented shortcut (see C04) is excluded
+            ctx.count("format:" + ("nan" if rma is NaN else ("tuple" if isinstance(rma, tuple) else "plain0")))
+            res = aggr.call(cube, agg, case, rma, shared)
             ctx.count("compared:" + name.split("[")[0])
             nt = len(dense) >= 1 and missing_rows and bool((~ref_m).any())
             ctx.evaluation({"c": {k: case[k] for k in ("dense", "commons", "shape", "fact", "weights", "ignore_missing")},
                             "a": agg, "cube": name}, nt)
-            bad = oracles.compare(res, NaN, ref_v, ref_m, tol)
+            bad = oracles.compare(res, rma, ref_v, ref_m, tol)
             if bad:
                 ctx.violation("%s:%s" % (bad[0], aggr.feature_key(case, agg, name.split("[")[0])),
                               "%s.%s vs direct group-by: %s" % (name, agg, bad[1]), case)
